@@ -77,7 +77,11 @@ func svPreOLVM(pre *svOLVMPre) func(e *svEnv) {
 		ctx := &e.app.Context
 		ctx.stateDB.SetBlockHash(ethcmn.BytesToHash([]byte{1}))
 		// (account nonce, transaction nonce - account nonce)
-		nc := [][2]int{{0, 0}, {0, 1}, {1, -1}, {1, 0}, {2, 0}}[sv.Choice("olvm.nonces", 5)]
+		nn := 5
+		if svLean {
+			nn = 2
+		}
+		nc := [][2]int{{0, 0}, {1, 0}, {0, 1}, {1, -1}, {2, 0}}[sv.Choice("olvm.nonces", nn)]
 		pre.nonce0, pre.delta = uint64(nc[0]), nc[1]
 		pre.target = sv.Choice("olvm.target", 4)
 		withContract := pre.target == 3
@@ -94,7 +98,11 @@ func svPreOLVM(pre *svOLVMPre) func(e *svEnv) {
 		}
 		pre.program = -1
 		if withContract {
-			pre.program = sv.Choice("olvm.program", len(svPrograms()))
+			np := len(svPrograms())
+			if svLean {
+				np = 2 // stop, revert
+			}
+			pre.program = sv.Choice("olvm.program", np)
 			sdb := ctx.stateDB.WithState(ctx.deliver)
 			c := ethcmn.BytesToAddress(svContractAddr)
 			sdb.SetCode(c, svPrograms()[pre.program].code)
@@ -205,7 +213,7 @@ func svModel_validateSigner(tx *olvm.Transaction, ctx *action.Context, signedTx 
 		return ethtypes.ErrInvalidSig
 	}
 	chain := utils.HashToBigInt(ctx.Header.ChainID)
-	if chain.Cmp(tx.ChainID) != 0 {
+	if tx.ChainID == nil || chain.Cmp(tx.ChainID) != 0 {
 		return ethtypes.ErrInvalidChainId
 	}
 	d := svOLVMDigest(tx, signedTx.RawTx.Fee, chain)
